@@ -322,6 +322,22 @@ def classify(h, res, known_tags):
 # ------------------------------------------------------------------------------------------------
 # replay of a counterexample
 # ------------------------------------------------------------------------------------------------
+def replay_without_playback(h, prop, failures):
+    """Harnesses that use stubs / contracts cannot be played back natively (Kani's playback does not
+    apply stubs) and their concrete-playback run costs up to 45 min (trace generation on a coroutine
+    harness).  The replay file names the harness and the failing checks; `./check <id> --replay <file>`
+    re-runs exactly that harness."""
+    os.makedirs(os.path.join(REPLAYS, prop), exist_ok=True)
+    path = os.path.join(REPLAYS, prop, h.name + ".rs")
+    with open(path, "w") as fh:
+        fh.write("// Counterexample of harness %s (property %s): failing checks of the solver run.\n" % (h.path, prop))
+        fh.write("// Re-run: ./check %s --replay %s\n" % (prop, path))
+        fh.write("// harness-file: harness/%s.rs  overlay: %s  stubs: %s\n" % (h.key, h.kind, ", ".join(h.stubs) or "none"))
+        for c in failures[:20]:
+            fh.write("// failed: %s @ %s\n" % (c["desc"], c["loc"]))
+    return path, None
+
+
 def concrete_playback(h, scratch, prop):
     """Re-run the failing harness with -Z concrete-playback=print; store the generated unit test.
     Returns (path, confirmed) where confirmed is True/False/None (None: native replay not possible)."""
@@ -500,7 +516,10 @@ def run_property(prop, tier, only=None, keep=False, seed=0):
             log("KNOWN-FINDING: property=%s %s %s (harness %s)" % (prop, f["id"], f["what"], ",".join(sorted(set(names)))))
         n_viol = 0
         for h, cl in violations:
-            path, confirmed = concrete_playback(h, scratch, prop)
+            if (h.stubs or h.kind == "p") and cl["state"] == "violation":
+                path, confirmed = replay_without_playback(h, prop, cl["failures"])
+            else:
+                path, confirmed = concrete_playback(h, scratch, prop)
             for c in cl["failures"][:5]:
                 log("  failed: %s @ %s" % (c["desc"], c["loc"]))
             if confirmed is False or (cl["state"] == "suspect" and confirmed is not True):
